@@ -28,7 +28,7 @@ func init() {
 			"Rejection oracle: every listed corruption must return an error. Lifecycle part: up to 4 requests of one type outstanding at once, created and finalized (garbage, bit-flipped and honest responses, evaluated from the wire bytes captured at creation) in seeded interleavings; every honest finalization must succeed with the token of its own request. distinct_nontrivial = distinct (type, corruption class, state, position) keys",
 		// (the rejected_by_* classes are recognised from error texts and therefore only reported, not required)
 		Floors: []string{"accepted_valid",
-			"type1_bitflips", "type2_bitflips", "type3_bitflips", "type5_bitflips", "cross_pair_rejected", "type5_drop_rejected", "type5_dup_rejected", "type5_swap_rejected", "type5_valid_proof_prefix_rejected", "type5_valid_proof_permuted_rejected", "type5_undecodable_element_rejected", "lifecycle_sequences", "lifecycle_honest_finalized", "lifecycle_decryptable_wrong_signature", "odd_salt_lengths", "client_object_reused_across_keys"},
+			"type1_bitflips", "type2_bitflips", "type3_bitflips", "type5_bitflips", "cross_pair_rejected", "type5_drop_rejected", "type5_dup_rejected", "type5_swap_rejected", "type5_valid_proof_prefix_rejected", "type5_valid_proof_permuted_rejected", "type5_undecodable_element_rejected", "lifecycle_sequences", "lifecycle_honest_finalized", "lifecycle_decryptable_wrong_signature", "misshapen_arguments_refused_at_creation", "odd_salt_lengths", "client_object_reused_across_keys"},
 		Assumptions: []string{"single-bit flips change the mathematical response (argued in DESIGN.md C02); nonces in a batch are distinct so swaps are never of equal elements"},
 		Run:         runC02,
 	})
@@ -459,6 +459,7 @@ func runC02(c *core.Ctx) {
 		c.Sample("type5 structure attacks", map[string]any{"state": p.st.label, "elements": nb})
 	}
 	c02Lifecycle(c)
+	c02HostileCreationArguments(c)
 	c02Extra(c)
 }
 
